@@ -99,6 +99,12 @@ ASSUME = ['TLC results are exhaustive only within the stated constants (1 blob, 
           'commit is a TLC behaviour; the I/O fault is one failing raw write (zv.faultfs) of the first blob copy in undo(); a '
           'temporary file FileStorage leaves in tmp/ on that fault is counted, not judged',
           'once a current revision has lost its blob file (reported) the rest of the behaviour is not replayed',
+          'file handles: one reader or writer handle at a time is kept open across an abort or across another connection\'s '
+          'commit and the next transaction boundary; commits are made with all handles closed (the code refuses otherwise)',
+          'tmp/ is judged where the leftover is deterministic (a working copy handed to a storeBlob that failed, the temporary '
+          'file of a failed undo copy) and only where the replay finds the file; other unowned files under tmp/ are counted',
+          'blobs are unlinked from / relinked into the root outside savepoints; DB.undo undoes one transaction (one record per '
+          'oid per transaction: undoMultiple is outside the model)',
           'c1 minimizes its cache at the end of each of its transactions (a Blob object activated while a stale savepoint '
           'file shadowed its committed file keeps that path: a consequence of F3 that depends on the cache, not judged apart)',
           'transaction, persistent, zodbpickle, zope.interface trusted as installed']
